@@ -5,7 +5,7 @@ git -C /repo worktree add --detach "$T/r" HEAD >/dev/null 2>&1
 for d in /verif/seeded/*/; do
   n=$(basename "$d")
   ( cd "$T/r" && git checkout -q -- . && git clean -fdq
-    if git apply "$d/patch.diff" 2>/dev/null; then echo "$n: applies"
+    if git apply --3way "$d/patch.diff" >/dev/null 2>&1; then git reset -q; git diff > "$d/patch.diff.new"; if cmp -s "$d/patch.diff" "$d/patch.diff.new"; then rm "$d/patch.diff.new"; echo "$n: applies"; else mv "$d/patch.diff.new" "$d/patch.diff"; echo "$n: re-based (3-way)"; fi
     elif patch -p1 -s -F3 < "$d/patch.diff" >/dev/null 2>&1; then find . -name '*.orig' -delete; find . -name '*.rej' -delete; git diff > "$d/patch.diff"; echo "$n: re-based"
     else echo "$n: DOES NOT APPLY"; fi )
 done
